@@ -206,6 +206,7 @@ struct Hist {
   void observe_desc(int s, unsigned which) {
     Grid& g = *slot[s]; dimension_type n = dim(s);
     st(s);
+    J.line("try " + std::to_string(s) + " desc");
     switch (which) {
       case 0: obs(s, "cgs = " + cgs_str(g.congruences(), n)); break;
       case 1: obs(s, "gens = " + gens_str(g.grid_generators(), n)); break;
@@ -224,6 +225,7 @@ struct Hist {
   void observe_query(int s) {
     Grid& g = *slot[s]; dimension_type n = dim(s);
     st(s);
+    J.line("try " + std::to_string(s) + " query");
     unsigned k = R.below(24);
     if (!focus.empty()) {
       if (focus == "rel_cg") k = 12; else if (focus == "frequency") k = 15; else if (focus == "constrains") k = 8;
